@@ -11,7 +11,7 @@ MANIFEST = {
 THEOREMS = ["DpapiNg.C07.readLE_packLE", "DpapiNg.C07.packInteger_content", "DpapiNg.C07.packInteger_minimal_pos",
             "DpapiNg.C07.readHeader_packTLV", "DpapiNg.C07.lengthOctets_minimal", "DpapiNg.C07.readInteger_packInteger",
             "DpapiNg.C07.octetNumber_roundtrip", "DpapiNg.C07.readOctetString_pack", "DpapiNg.C07.readBoolean_pack",
-            "DpapiNg.C07.validateTag_any"]
+            "DpapiNg.C07.validateTag_any", "DpapiNg.C07.readOid_packOid"]
 RULE = ("integers: exhaustive over all values of ≤2 content octets (quick) / ≤3 (thorough), ±2^k±1 up to k=4096; tags: class × number × constructed; "
         "content lengths around 2^7, 2^8, 2^16 (2^24 thorough); OIDs with small and huge arcs; malformed reader inputs (truncations, bit flips, random). "
         "Each case runs the real _asn1 function and the model driver; distinct by op line")
